@@ -30,7 +30,7 @@ CLAIMED = {
         "exhaustive enumeration (itertools.product) of the kind(value) x target type x embedding context matrix (12 contexts, incl. constructor and __replace__ calls that give several fields at once) against a hand-written kind-compatibility table",
         "All cells of 39 value instances (13 kinds) x 52 target types x 12 contexts are evaluated on every run: a value whose kind the "
         "target's family does not admit must raise ConvertError in every context; admitted cells are decided by the reference interpreter. "
-        "Exhaustive over this matrix, not over all values. Type variables met unsubstituted (bound to a class, a union, an Optional, a List; constrained) are among the targets.",
+        "Exhaustive over this matrix, not over all values. Type variables met unsubstituted (bound to a class, a union, an Optional, a List; constrained) are among the targets. Suite equal-across-kinds: lists of values that are equal across kinds (1, 1.0, True) against set, list and tuple targets.",
         "Trusts the kind table in pv/props/c02.py (taken from the statement and docs/index.md); bool -> number and ==-matching literal cells are unspecified.",
         "DESIGN.md section 5, C02",
     ),
@@ -39,7 +39,7 @@ CLAIMED = {
         "For every generated (type, value) and every (sub-type, sub-value) reached by walking the value, the fast pass raises "
         "ParseInterrupt iff the diagnostic pass returns an error tree, and convert() never raises the 'bug of the Converter' RuntimeError. "
         "A third suite feeds the condition grammar of C13 (conditions must see the converted value in both passes). "
-        "Suite extension-points: a union built with a refusing constructor by a _converter hook, and a default factory that raises. The evidence lists which converter classes were exercised and how often.",
+        "Suite extension-points: a union built with a refusing constructor by a _converter hook, and a default factory that raises; suite equal-across-kinds: both passes on lists of values equal across kinds. The evidence lists which converter classes were exercised and how often.",
         "No reference model needed; trusts only the walk of (sub-type, sub-value) pairs in pv/tg.py. User-written converter classes are out of scope.",
         "DESIGN.md section 5, C03",
     ),
@@ -48,7 +48,7 @@ CLAIMED = {
         "Every call either returns or raises ConvertError; any other exception is a violation keyed by (exception type, innermost pane frame); values include "
         "numpy arrays and instances of subclasses of interchange types, and YAML documents made of YAML's own scalar kinds (timestamps, sets, binary). "
         "18 unsupported type forms x 11 embedding wrappers are enumerated: make_converter and from_data must raise TypeError/UnsupportedAnnotation "
-        "identically for every value; every supported type of the grammar must build. Ill-formed tagged unions (a member without the tag, Optional of a tagged union) are among the unsupported forms.",
+        "identically for every value; every supported type of the grammar must build. Ill-formed tagged unions (a member without the tag, Optional of a tagged union), bare Annotated and PaneBase itself are among the unsupported forms. Suite raising-hooks: __post_init__, default factories and predicates raising nine kinds of exception on every data path.",
         "Values are interchange data with ints under 1000 digits. Trusts the classification of type forms into supported/unsupported taken from docs/index.md.",
         "DESIGN.md section 5, C04",
     ),
@@ -93,7 +93,7 @@ CLAIMED = {
         "For every generated (type, value) of both verdicts, every dict/list in the value is a spy subclass recording mutator calls; a deep "
         "snapshot (types, contents, key order) before must equal the one after from_data, convert, Cls.from_data, keyword and positional "
         "construction, make_unchecked and from_dict_unchecked (defaulted fields left out), and into_data must leave the typed value unchanged; "
-        "suite inserting-maps gives every mapping as a defaultdict (lookup inserts) with entries taken away, against struct literals, Dict and dataclass targets; suite variant-converter: a tagged-union variant whose own converter hands out the mapping it holds must find it unchanged after into_data.",
+        "suite inserting-maps gives every mapping as a defaultdict (lookup inserts) with entries taken away, against struct literals, Dict and dataclass targets; suite variant-converter: a tagged-union variant whose own converter hands out the mapping it holds must find it unchanged after into_data; suite derived-field: from_dict_unchecked and the other construction paths with a __post_init__ that fills in a field.",
         "A mutation through C-level dict/list APIs that bypass subclass methods is seen by the snapshot only.",
         "DESIGN.md section 5, C09",
     ),
@@ -102,7 +102,7 @@ CLAIMED = {
         "Histories of up to 50 (thorough 120) operations on short-lived type objects; every conversion outcome must equal the reference verdict for "
         "(spec, value) - also after the caller has modified every container of an earlier result -, the memoised converter must behave like one built past the cache, interleaved calls with different call-level handlers must "
         "each follow their own handlers, and KeyCache (unbounded and LRU maxsize 1-4) must always return f(args) and respect maxsize. "
-        "Histories are plain data and replay without Hypothesis. Union member order below another union / annotation, in constrained TypeVars and ValueOrList must not follow an equal type written earlier; suite register-after-use: a handler registered after a type was first converted is used from then on (from_data, constructor, __replace__); suite forward-reference: a named tuple converted before the class its slot refers to exists.",
+        "Histories are plain data and replay without Hypothesis. Union member order below another union / annotation, in constrained TypeVars and ValueOrList must not follow an equal type written earlier; suite register-after-use: a handler registered after a type was first converted is used from then on (from_data, constructor, __replace__); suite forward-reference: a named tuple converted before the class its slot refers to exists; suite tagged-union-reused: a memoised tagged-union converter recognises variant instances on every use.",
         "The harness does not own the thread schedule (stress only) nor the allocator (id-reuse events are measured and reported, not forced).",
         "DESIGN.md section 5, C10",
     ),
@@ -170,7 +170,7 @@ CLAIMED = {
         "Every source converts the marker type to a value naming the source; the observed label at each position (direct field, List, Dict, Optional, "
         "Tuple, nested dataclass, subclass, top-level container, inside a third-party generic container served by a registered handler, untyped positions on output) and in three directions (from_data, into_data, construction of the containing class) must be the first present source in the documented order; "
         "declining handlers (NotImplemented / NotImplementedError) are skipped; mapping-form handlers match only the exact unparameterised type; "
-        "global handlers sit after the scalar built-ins and the protocol, before structural built-ins. Also: construction of the enclosing class (ctor-outer), converters that read the data form only (strict) on output through unions, a handler for the type of an enum's values in both directions.",
+        "global handlers sit after the scalar built-ins and the protocol, before structural built-ins. Also: construction of the enclosing class (ctor-outer), converters that read the data form only (strict) on output through unions, a handler for the type of an enum's values in both directions, reader-only converters at depth 0, one handler object in two roles, three nesting levels sharing handler objects.",
         "A fresh marker class per case keeps the converter cache out of the picture; one global dispatcher is registered per process.",
         "DESIGN.md section 5, C18",
     ),
@@ -179,7 +179,7 @@ CLAIMED = {
         "Typed values whose serialised form the format can represent are written through every sink (Path, str path, caller stream, caller-opened file, "
         "dataclass method returning a string / writing a stream) under generated options and read back through every source (stream, Path, str path, "
         "dataclass classmethods); the value read must be the same, functions and methods must agree, from_yaml_all must return one value per document, "
-        "caller streams must stay open, files pane opens must be closed and opened as UTF-8. Suite scalar-documents: enum members and scalar-subclass instances as whole documents, written with and without ty=.",
+        "caller streams must stay open, files pane opens must be closed and opened as UTF-8. Suite scalar-documents: enum members and scalar-subclass instances as whole documents, written with and without ty=; suite lookalike-strings (text every YAML resolver would read as a number / bool / date); suite yaml-all-member-order.",
         "Trusts json / PyYAML; text PyYAML itself cannot round-trip is excluded and counted. NaN excluded.",
         "DESIGN.md section 5, C19",
     ),
